@@ -307,23 +307,29 @@ class Patch(Family):
 # ------------------------------------------------------------------------------------------
 
 import gc  # noqa: E402
-from glue.core import Data, DataCollection  # noqa: E402
+from glue.core import Data, DataCollection, ComponentID, ComponentLink  # noqa: E402
+from glue.core.component_link import BinaryComponentLink, CoordinateComponentLink  # noqa: E402
 from glue.core.registry import Registry  # noqa: E402
-from glue.core.link_helpers import LinkSame  # noqa: E402
+from glue.core.link_helpers import LinkSame, LinkTwoWay, MultiLink, LinkAligned, PartialResult  # noqa: E402
 from glue.core.subset import RangeSubsetState, AndState, OrState, InvertState  # noqa: E402
 from glue.core.exceptions import IncompatibleAttribute  # noqa: E402
 from glue.core.coordinates import IdentityCoordinates  # noqa: E402
+from harness.props import c12_linkfns as LF  # noqa: E402
 
 PALETTE = ['#595959', '#ff0000', '#00ff00', '#0000ff', '#123456']
 CATS = ['a', 'b', 'c', 'd']
+PIX = 'Pixel_Axis_0_[x]'
+WORLD = 'World_0'
 
 
 class VersionedSerializer(GlueSerializer):
-    """GlueSerializer that writes the types in `force` with `dispatch.get_version(type, v)`; the
+    """GlueSerializer that writes the types in `force` with `dispatch.get_version(type, v)` and the
+    individual objects in `force_obj` (id(obj) -> v) with the version chosen for *that object*; the
     record is tagged `_protocol=v` by GlueSerializer.do exactly as for the newest version."""
 
-    def __init__(self, obj, force, **kw):
+    def __init__(self, obj, force, force_obj=None, **kw):
         self.force = force
+        self.force_obj = force_obj or {}
         super().__init__(obj, **kw)
 
     def _dispatch(self, obj):
@@ -331,6 +337,9 @@ class VersionedSerializer(GlueSerializer):
             return super()._dispatch(obj)
         for typ in type(obj).mro():
             if typ in self.dispatch:
+                if id(obj) in self.force_obj:
+                    v = self.force_obj[id(obj)]
+                    return self.dispatch.get_version(typ, v), v
                 if typ in self.force:
                     v = self.force[typ]
                     return self.dispatch.get_version(typ, v), v
@@ -363,6 +372,46 @@ def _set_style(style, sv):
     style.alpha = sv[2] / 4.0
 
 
+def _cid(ds, ref):
+    d = ds[ref[0]]
+    if ref[1] == PIX:
+        return d.pixel_component_ids[0]
+    if ref[1] == WORLD:
+        return d.world_component_ids[0]
+    return d.id[ref[1]]
+
+
+def _fn(name):
+    if name is None:
+        return None
+    if name == 'identity':
+        from glue.core.link_helpers import identity
+        return identity
+    return getattr(LF, name)
+
+
+def build_link(spec, ds):
+    """one entry of dc.external_links from its recipe spelling"""
+    if not isinstance(spec[0], str):          # round-1 spelling (i, a, j, b) of LinkSame
+        i, a, j, b = spec
+        return LinkSame(ds[i].id[a], ds[j].id[b])
+    k = spec[0]
+    if k == 'same':
+        return LinkSame(_cid(ds, spec[1]), _cid(ds, spec[2]))
+    if k == 'cl':
+        return ComponentLink([_cid(ds, r) for r in spec[1]], _cid(ds, spec[2]), using=_fn(spec[3]), inverse=_fn(spec[4]))
+    if k == 'two':
+        return LinkTwoWay(_cid(ds, spec[1]), _cid(ds, spec[2]), _fn(spec[3]), _fn(spec[4]))
+    if k == 'pair':
+        return LF.PairLink(cids1=[_cid(ds, spec[1]), _cid(ds, spec[2])], cids2=[_cid(ds, spec[3]), _cid(ds, spec[4])])
+    if k == 'multi':
+        return MultiLink([_cid(ds, spec[1]), _cid(ds, spec[2])], [_cid(ds, spec[3]), _cid(ds, spec[4])],
+                         forwards=LF.pair_fw, backwards=LF.pair_bw)
+    if k == 'aligned':
+        return LinkAligned(ds[spec[1]], ds[spec[2]])
+    raise ValueError(k)
+
+
 def build_dc(recipe, cv):
     datas, sels, links, joins, sgc = recipe
     ds = []
@@ -380,15 +429,18 @@ def build_dc(recipe, cv):
         for der in derived:
             if der[1] == 'dbl':
                 d[der[0]] = d.id[der[2]] * 2
-            else:
+            elif der[1] == 'sum':
                 d[der[0]] = d.id[der[2]] + d.id[der[3]]
+            else:   # a user function on components of this dataset
+                srcs = [d.id[x] for x in der[3:]]
+                d.add_component_link(ComponentLink(srcs, ComponentID(der[0]), using=_fn(der[2])), der[0])
         _set_style(d.style, style)
         for k, v in meta:
             d.meta[k] = v
         ds.append(d)
     dc = DataCollection(ds)
-    for (i, a, j, b) in links:
-        dc.add_link(LinkSame(ds[i].id[a], ds[j].id[b]))
+    for spec in links:
+        dc.add_link(build_link(spec, ds))
     for (i, aa, j, bb) in joins:
         ds[i].join_on_key(ds[j], tuple(aa) if len(aa) > 1 else aa[0], tuple(bb) if len(bb) > 1 else bb[0])
     keep = []
@@ -423,9 +475,54 @@ def _obs_vals(arr):
     return ['half', [int(x) for x in t]]
 
 
-def observe_dc(dc, orig_ds, care_uuid):
+def _ref_atom(dsl, cid):
+    """`<dataset index>.<label>` of a component ID of the collection (by identity)"""
+    for k, d in enumerate(dsl):
+        if any(c is cid for c in d.components):
+            return '%d.%s' % (k, _lab(cid.label))
+    par = getattr(cid, 'parent', None)
+    for k, d in enumerate(dsl):
+        if par is d:
+            return '%d.%s' % (k, _lab(cid.label))
+    return 'nowhere.%s' % _lab(cid.label)
+
+
+def _fn_name(f):
+    if f is None:
+        return None
+    if isinstance(f, PartialResult):
+        return '%s_%d' % (_lab(getattr(f.func, '__name__', 'fn')), f.index + 1)
+    return _lab(getattr(f, '__name__', type(f).__name__))
+
+
+def _obs_clink(dsl, l):
+    if isinstance(l, CoordinateComponentLink):
+        fn, inv = 'coord', None
+    elif isinstance(l, BinaryComponentLink):
+        fn, inv = 'binop_' + _lab(getattr(l._op, '__name__', 'op')), None
+    else:
+        fn, inv = _fn_name(l.get_using()), _fn_name(l.get_inverse())
+    return [[_ref_atom(dsl, c) for c in l.get_from_ids()], _ref_atom(dsl, l.get_to_id()), fn, inv]
+
+
+_HELPER_KIND = {'ComponentLink': 'plain', 'LinkSame': 'same', 'LinkTwoWay': 'two', 'PairLink': 'pair',
+                'MultiLink': 'multi', 'LinkAligned': 'aligned'}
+
+
+def _obs_ext(dsl, l):
+    kind = _HELPER_KIND.get(type(l).__name__, _lab(type(l).__name__))
+    if isinstance(l, ComponentLink):
+        return [kind, [], [], [_obs_clink(dsl, l)]]
+    c1 = [_ref_atom(dsl, c) for c in (getattr(l, 'cids1', None) or [])]
+    c2 = [_ref_atom(dsl, c) for c in (getattr(l, 'cids2', None) or [])]
+    return [kind, c1, c2, sorted([_obs_clink(dsl, x) for x in l], key=sx)]
+
+
+def observe_dc(dc, orig_ds, cares):
+    """cares[k]: is the uuid of dataset k carried by the protocol it was written with"""
     out = []
-    for k, d in enumerate(dc):
+    dsl = list(dc)
+    for k, d in enumerate(dsl):
         main = [[_lab(c.label)] + _obs_vals(d[c]) for c in d.main_components]
         der = [[_lab(c.label)] + _obs_vals(d[c]) for c in d.derived_components]
         subs = []
@@ -445,13 +542,115 @@ def observe_dc(dc, orig_ds, care_uuid):
         coords = 'none' if d.coords is None else type(d.coords).__name__
         world = [_lab(c.label) for c in d.world_component_ids]
         pix = [_lab(c.label) for c in d.pixel_component_ids]
-        if not care_uuid:
+        care = cares[k] if k < len(cares) else True
+        if not care:
             uu = None
         else:
             uu = bool(k < len(orig_ds) and d.uuid == orig_ds[k].uuid)
         out.append([_lab(d.label), main, der, subs, _obs_style(d.style), kj, meta, bool(parents), coords, world, pix, uu])
     groups = [[_lab(g.label), _obs_style(g.style)] for g in dc.subset_groups]
-    return [out, groups, dc._sg_count, len(dc.external_links)]
+    # the link zoo: dc.external_links (helpers with their sub-links), dc.links (every ComponentLink the
+    # link manager knows, helpers expanded), and what every dataset can read of the others, with values
+    ext = sorted([_obs_ext(dsl, l) for l in dc.external_links], key=sx)
+    links = sorted([_obs_clink(dsl, l) for l in dc.links], key=sx)
+    acc = []
+    for k, d in enumerate(dsl):
+        row = []
+        for j, e in enumerate(dsl):
+            if j == k:
+                continue
+            for cid in list(e.pixel_component_ids) + list(e.main_components) + list(e.world_component_ids) + list(e.derived_components):
+                ref = '%d.%s' % (j, _lab(cid.label))
+                try:
+                    row.append([ref] + _obs_vals(d[cid]))
+                except IncompatibleAttribute:
+                    row.append([ref, 'inc'])
+        acc.append(row)
+    return [out, groups, dc._sg_count, ext, links, acc]
+
+
+# -- generators ---------------------------------------------------------------------------
+
+UNARY = ['twice', 'plus3', 'minus3', 'neg']
+BINARY = ['add2', 'sub2']
+INVERTIBLE = [('plus3', 'minus3'), ('minus3', 'plus3'), ('neg', 'neg')]
+TWOWAY = [('plus3', 'minus3'), ('twice', 'neg'), ('neg', 'neg'), ('twice', 'plus3')]
+LINK_KINDS = ['same', 'same', 'cl1', 'cl1inv', 'clF', 'clM', 'clM', 'two', 'pair', 'multi', 'aligned']
+
+
+def _mains(datas, k):
+    return [c[0] for c in datas[k][1] if c[1] in ('int', 'half')]
+
+
+def _sources(datas, k):
+    return _mains(datas, k) + [d[0] for d in datas[k][2]] + [PIX] + ([WORLD] if datas[k][5] == 'id' else [])
+
+
+def gen_link(rng, datas, kind, produced):
+    """-> (spec, targets) or None.  Generated collections give every component at most ONE
+    producing link (forward or inverse), so what a dataset reads through the links does not depend on
+    the order in which the link manager discovers them."""
+    nd = len(datas)
+    i, j = rng.sample(range(nd), 2)
+    mi, mj = _mains(datas, i), _mains(datas, j)
+    if not mi or not mj:
+        return None
+    b = [j, rng.choice(mj)]
+    if kind == 'same':
+        a = [i, rng.choice(mi + [PIX])]
+        return ['same', a, b], [a, b]
+    if kind == 'cl1':
+        return ['cl', [[i, rng.choice(_sources(datas, i))]], b, rng.choice(UNARY), None], [b]
+    if kind == 'cl1inv':
+        a = [i, rng.choice(mi)]
+        f, g = rng.choice(INVERTIBLE + [('identity', 'identity')])
+        return ['cl', [a], b, f, g], [a, b]
+    if kind == 'clF':      # several inputs, all from other datasets than the output
+        src = _sources(datas, i)
+        frm = [[i, rng.choice(src)], [i, rng.choice(src)]]
+        if nd >= 3 and rng.random() < 0.4:
+            m = rng.choice([x for x in range(nd) if x not in (i, j)])
+            frm.insert(rng.randint(0, 2), [m, rng.choice(_sources(datas, m))])
+            return ['cl', frm, b, 'lin3', None], [b]
+        return ['cl', frm, b, rng.choice(BINARY), None], [b]
+    if kind == 'clM':      # several inputs, some from the output's own dataset, some from another one
+        own = [x for x in _sources(datas, j) if x != b[1]]
+        frm = [[j, rng.choice(own)], [i, rng.choice(_sources(datas, i))]]
+        if rng.random() < 0.3:
+            frm.append(rng.choice([[j, rng.choice(own)], [i, rng.choice(_sources(datas, i))]]))
+        rng.shuffle(frm)
+        return ['cl', frm, b, 'lin3' if len(frm) == 3 else rng.choice(BINARY), None], [b]
+    if kind == 'two':
+        a = [i, rng.choice(mi)]
+        f, g = rng.choice(TWOWAY)
+        return ['two', a, b, f, g], [a, b]
+    if kind in ('pair', 'multi'):
+        if len(mi) < 2 or len(mj) < 2:
+            return None
+        a1, a2 = rng.sample(mi, 2)
+        b1, b2 = rng.sample(mj, 2)
+        refs = [[i, a1], [i, a2], [j, b1], [j, b2]]
+        return [kind] + refs, refs
+    if kind == 'aligned':
+        if len(datas[i][1][0][2]) != len(datas[j][1][0][2]):
+            return None
+        return ['aligned', i, j], [[i, PIX], [j, PIX]]
+    raise ValueError(kind)
+
+
+def gen_links(rng, datas, n):
+    links, produced = [], set()
+    for _ in range(n):
+        got = gen_link(rng, datas, rng.choice(LINK_KINDS), produced)
+        if got is None:
+            continue
+        spec, targets = got
+        keys = [tuple(t) for t in targets]
+        if len(set(keys)) != len(keys) or any(k in produced for k in keys):
+            continue
+        produced.update(keys)
+        links.append(spec)
+    return links
 
 
 def gen_recipe(rng, small=False):
@@ -465,13 +664,21 @@ def gen_recipe(rng, small=False):
             vals = [rng.randint(0, 3) if kind == 'cat' else rng.randint(-3, 6) for _ in range(n)]
             comps.append(['c%d%d' % (k, c), kind, vals])
         derived = []
-        if rng.random() < 0.45:
-            nums = [c[0] for c in comps if c[1] in ('int', 'half')]
-            if rng.random() < 0.5 or len(nums) < 2:
-                derived.append(['z%d' % k, 'dbl', rng.choice(nums)])
-            else:
-                a, b = rng.sample(nums, 2)
-                derived.append(['z%d' % k, 'sum', a, b])
+        nums = [c[0] for c in comps if c[1] in ('int', 'half')]
+        for t in range(2):
+            if rng.random() < (0.45 if t == 0 else 0.2):
+                lab = '%s%d' % ('zt'[t], k)
+                r = rng.random()
+                if r < 0.3 or (r < 0.5 and len(nums) < 2):
+                    derived.append([lab, 'dbl', rng.choice(nums)])
+                elif r < 0.5:
+                    a, b = rng.sample(nums, 2)
+                    derived.append([lab, 'sum', a, b])
+                elif r < 0.75:
+                    derived.append([lab, 'fn1', rng.choice(UNARY), rng.choice(nums)])
+                else:
+                    derived.append([lab, 'fn2', rng.choice(BINARY), rng.choice(nums), rng.choice(nums)])
+                nums = nums + [lab]        # a derived component may feed the next one
         style = [rng.randint(0, 4), rng.randint(1, 9), rng.randint(0, 4)]
         meta = [['m%d' % i, rng.choice([1, 2, 'txt', 'other'])] for i in range(rng.randint(0, 2))]
         coords = rng.choice(['none', 'none', 'id'])
@@ -500,9 +707,9 @@ def gen_recipe(rng, small=False):
         i, j = rng.sample(range(nd), 2)
         ai = [c[0] for c in datas[i][1] if c[1] == 'int']
         bj = [c[0] for c in datas[j][1] if c[1] == 'int']
-        if r < 0.3 and len(datas[i][1][0][2]) == len(datas[j][1][0][2]):
-            links.append([i, rng.choice(ai), j, rng.choice(bj)])
-        elif r < 0.75:
+        if r < 0.6:
+            links = gen_links(rng, datas, rng.choice([1, 1, 2, 2, 3, 4]))
+        if r >= 0.45 and r < 0.85:
             m = 2 if (len(ai) >= 2 and len(bj) >= 2 and rng.random() < 0.35) else 1
             joins.append([i, ai[:m], j, bj[:m]])
     return [datas, sels, links, joins, rng.randint(0, 3)]
@@ -528,14 +735,107 @@ FIXED_RECIPES = [
     [[['d0', [['x', 'int', [5]]], [], [0, 3, 0], [], 'none']], [], [], [], 0],
 ]
 
+# the link zoo, one collection per corner (every one is run under all 20 version pairs)
+ZOO_RECIPES = [
+    # identity helper + a link whose inputs come from the output's own dataset AND from another one
+    # (d1.w from d1.u and d0.y; d0 reads d1.u through the identity link, hence also d1.w)
+    [[['d0', [['x', 'int', [1, 2, 3]], ['y', 'int', [4, 5, 6]]], [], [1, 7, 2], [], 'none'],
+      ['d1', [['u', 'int', [7, 8, 9, 1]], ['w', 'int', [1, 0, 1, 5]]], [], [2, 5, 4], [['m', 'v']], 'none']],
+     [['s0', 1, ['gt', 'w', 4], [3, 4, 3]]],
+     [['same', [0, 'x'], [1, 'u']], ['cl', [[1, 'u'], [0, 'y']], [1, 'w'], 'add2', None]], [], 0],
+    # single input without / with inverse, several inputs all foreign, a chain over three datasets,
+    # three inputs from three places (own, foreign, foreign)
+    [[['d0', [['x', 'int', [1, 2, 3]], ['y', 'half', [3, 4, 5]]], [], [1, 7, 2], [], 'none'],
+      ['d1', [['u', 'int', [7, 8]], ['w', 'int', [1, 0]], ['v', 'int', [2, 2]]], [], [2, 5, 4], [], 'none'],
+      ['d2', [['p', 'int', [0, 5, 5, 1]], ['q', 'half', [1, 1, 2, 3]], ['r', 'int', [9, 8, 7, 6]]], [], [0, 3, 0], [['k', 1]], 'none']],
+     [['s0', 2, ['gt', 'p', 1], [3, 4, 3]]],
+     [['cl', [[0, 'x']], [1, 'u'], 'twice', None],
+      ['cl', [[0, 'y']], [1, 'w'], 'plus3', 'minus3'],
+      ['cl', [[1, 'u'], [1, 'w']], [2, 'p'], 'sub2', None],
+      ['cl', [[2, 'r'], [0, 'x'], [1, 'v']], [2, 'q'], 'lin3', None]], [], 1],
+    # two-way helper with a non-inverse pair + a multi-link helper class + a plain identity link
+    [[['d0', [['x', 'int', [1, 2, 3]], ['y', 'int', [4, 5, 6]], ['g', 'int', [0, 1, 0]]], [], [1, 7, 2], [], 'id'],
+      ['d1', [['u', 'int', [7, 8, 9]], ['w', 'int', [1, 0, 1]], ['h', 'half', [1, 2, 3]], ['e', 'int', [5, 5, 5]]], [], [2, 5, 4], [], 'none']],
+     [['s0', 0, ['range', 'x', 2, 3], [3, 4, 3]], ['s1', 1, ['gt', 'h', 0], [0, 1, 0]]],
+     [['pair', [0, 'x'], [0, 'y'], [1, 'u'], [1, 'w']], ['two', [0, 'g'], [1, 'h'], 'twice', 'plus3'],
+      ['cl', [[0, WORLD]], [1, 'e'], 'identity', 'identity']], [], 0],
+    # MultiLink instance + LinkAligned + pixel / world coordinates as link inputs
+    [[['d0', [['x', 'int', [1, 2, 3]], ['y', 'int', [4, 5, 6]]], [], [1, 7, 2], [], 'id'],
+      ['d1', [['u', 'int', [7, 8, 9]], ['w', 'int', [1, 0, 1]], ['e', 'int', [0, 0, 0]]], [], [2, 5, 4], [], 'none']],
+     [['s0', 1, ['gt', 'e', 0], [3, 4, 3]]],
+     [['multi', [0, 'x'], [0, 'y'], [1, 'u'], [1, 'w']], ['aligned', 0, 1],
+      ['cl', [[1, PIX], [0, WORLD]], [1, 'e'], 'add2', None]], [], 0],
+    # derived components through arithmetic and through user functions (also one of another derived
+    # component), and links that start at them
+    [[['d0', [['x', 'int', [1, 2, 3]], ['y', 'half', [3, 4, 5]]],
+       [['z', 'dbl', 'x'], ['t', 'fn1', 'plus3', 'z'], ['f', 'fn2', 'sub2', 'y', 't']], [1, 7, 2], [], 'none'],
+      ['d1', [['u', 'int', [7, 8]], ['w', 'half', [1, 0]]], [['q', 'fn2', 'add2', 'u', 'w'], ['o', 'sum', 'u', 'q']], [2, 5, 4], [], 'id']],
+     [['s0', 0, ['gt', 'x', 1], [3, 4, 3]]],
+     [['cl', [[0, 't']], [1, 'u'], 'neg', 'neg'], ['cl', [[1, 'q'], [0, 'f']], [1, 'w'], 'sub2', None]], [], 0],
+]
+
+# two Data records, every pair of Data protocols, both load orders
+MIX_RECIPE = [[['d0', [['x', 'int', [1, 2, 3, 4]], ['y', 'half', [3, 4, 5, 6]]], [['z', 'dbl', 'x']], [1, 7, 2], [['k', 3], ['s', 'st']], 'none'],
+               ['d1', [['u', 'int', [1, 2, 3]], ['w', 'int', [3, 1, 2]]], [['t', 'fn1', 'neg', 'w']], [2, 5, 4], [['o', 'other']], 'id']],
+              [['s0', 0, ['gt', 'x', 2], [3, 4, 3]], ['s1', 1, ['range', 'u', 2, 3], [4, 2, 1]]],
+              [['same', [0, 'x'], [1, 'w']]], [[1, ['u'], 0, ['x']]], 1]
+
+
+def _shrink_recipe(recipe):
+    datas, sels, links, joins, sgc = recipe
+    for i in range(len(sels)):
+        yield [datas, sels[:i] + sels[i + 1:], links, joins, sgc]
+    for i in range(len(links)):
+        yield [datas, sels, links[:i] + links[i + 1:], joins, sgc]
+    if joins:
+        yield [datas, sels, links, [], sgc]
+    if sgc:
+        yield [datas, sels, links, joins, 0]
+
+    def used(k, lab):
+        for l in links:
+            if not isinstance(l[0], str):
+                if (l[0] == k and l[1] == lab) or (l[2] == k and l[3] == lab):
+                    return True
+            elif l[0] == 'cl':
+                if [k, lab] in l[1] or l[2] == [k, lab]:
+                    return True
+            elif l[0] != 'aligned' and [k, lab] in l[1:5]:
+                return True
+        return False
+    for k, d in enumerate(datas):
+        if d[2]:
+            last = d[2][-1][0]
+            if not used(k, last):
+                yield [datas[:k] + [[d[0], d[1], d[2][:-1], d[3], d[4], d[5]]] + datas[k + 1:], sels, links, joins, sgc]
+        if d[4]:
+            yield [datas[:k] + [[d[0], d[1], d[2], d[3], [], d[5]]] + datas[k + 1:], sels, links, joins, sgc]
+        if d[5] != 'none' and not used(k, WORLD):
+            yield [datas[:k] + [[d[0], d[1], d[2], d[3], d[4], 'none']] + datas[k + 1:], sels, links, joins, sgc]
+    # drop the last dataset when nothing refers to it
+    if len(datas) > 1:
+        k = len(datas) - 1
+
+        def mentions(l):
+            if not isinstance(l[0], str):
+                return k in (l[0], l[2])
+            if l[0] == 'cl':
+                return any(r[0] == k for r in l[1]) or l[2][0] == k
+            if l[0] == 'aligned':
+                return k in l[1:3]
+            return any(isinstance(r, list) and r[0] == k for r in l[1:5])
+        if not any(s_[1] == k for s_ in sels) and not any(mentions(l) for l in links) and not any(k in (j[0], j[2]) for j in joins):
+            yield [datas[:k], sels, links, joins, sgc]
+
 
 class RoundTrip(Family):
-    """(Data version dv) x (DataCollection version cv) x generated collections: written with the
-    savers of those versions, loaded back through GlueUnSerializer, observed."""
+    """Documents of DataCollection / Data records, every record written with an independently
+    chosen registered version of its type's saver, loaded by ONE GlueUnSerializer after the caller has
+    asked for some of the records in some order; observed after the load."""
     name = "rt"
     exhaustive = False
     batch = 40
-    budget_share = 6.0
+    budget_share = 8.0
     case_timeout = 30.0
 
     def setup(self):
@@ -544,22 +844,54 @@ class RoundTrip(Family):
 
     def cases(self, tier, rng):
         self.setup()
-        for r in FIXED_RECIPES:
-            for dv in self.dvs:
-                for cv in self.cvs:
+        dvs, cvs = self.dvs, self.cvs
+        # 1. every (Data version, DataCollection version) pair on the fixed collections and the link zoo
+        for r in FIXED_RECIPES + ZOO_RECIPES:
+            for dv in dvs:
+                for cv in cvs:
                     yield [dv, cv, r]
+        # 2. mixed documents, exhaustive core: two Data records, every pair (v_i, v_j) of registered
+        #    versions, every collection version, loaded in both orders (and in the collection's own)
+        for cv in cvs:
+            for vi in dvs:
+                for vj in dvs:
+                    for order in ([], [0, 1], [1, 0]):
+                        yield [[vi, vj], cv, MIX_RECIPE, order]
+        #    … and two collection records of every pair of collection versions in one document
+        for ci in cvs:
+            for cj in cvs:
+                a = [[rng.choice(dvs), rng.choice(dvs)], ci, ZOO_RECIPES[0]]
+                b = [[rng.choice(dvs), rng.choice(dvs)], cj, MIX_RECIPE]
+                for order in ([], [[1]], [[1, 1], [0, 1], [1], [0, 0]]):
+                    yield ["doc", [a, b], order]
+        # 3. generated collections
         n = 300 if tier == "quick" else 4000
+        prev = None
         for t in range(n):
             r = gen_recipe(rng, small=(t % 3 == 0))
+            nd = len(r[0])
             if tier == "quick" and t % 5 != 0:
                 # every Data version with the newest collection, every collection version with the
                 # newest Data, and two random pairs
-                pairs = {(dv, self.cvs[-1]) for dv in self.dvs} | {(self.dvs[-1], cv) for cv in self.cvs}
-                pairs |= {(rng.choice(self.dvs), rng.choice(self.cvs)) for _ in range(2)}
+                pairs = {(dv, cvs[-1]) for dv in dvs} | {(dvs[-1], cv) for cv in cvs}
+                pairs |= {(rng.choice(dvs), rng.choice(cvs)) for _ in range(2)}
             else:
-                pairs = {(dv, cv) for dv in self.dvs for cv in self.cvs}
+                pairs = {(dv, cv) for dv in dvs for cv in cvs}
             for dv, cv in sorted(pairs):
                 yield [dv, cv, r]
+            # random version assignments, random request orders
+            if nd >= 2:
+                for _ in range(2 if tier == "quick" else 6):
+                    order = [rng.randrange(nd) for _ in range(rng.randint(0, nd))]
+                    yield [[rng.choice(dvs) for _ in range(nd)], rng.choice(cvs), r, order]
+            if prev is not None and t % 4 == 0:
+                parts = [[[rng.choice(dvs) for _ in range(len(x[0]))], rng.choice(cvs), x] for x in (prev, r)]
+                reqs = []
+                for _ in range(rng.randint(0, 3)):
+                    k = rng.randrange(2)
+                    reqs.append([k] if rng.random() < 0.3 else [k, rng.randrange(len(parts[k][2][0]))])
+                yield ["doc", parts, reqs]
+            prev = r
 
     _n = 0
 
@@ -571,28 +903,53 @@ class RoundTrip(Family):
         if RoundTrip._n % 25 == 0:
             gc.collect()
 
+    @staticmethod
+    def _norm(case):
+        """-> (single, parts [(dvs list, cv, recipe)], requests [(k, i) | (k,)])"""
+        if case[0] == "doc":
+            parts = [(p[0] if isinstance(p[0], list) else [p[0]] * len(p[2][0]), p[1], p[2]) for p in case[1]]
+            return False, parts, [tuple(q) for q in case[2]]
+        dv, cv, recipe = case[0], case[1], case[2]
+        dvs = dv if isinstance(dv, list) else [dv] * len(recipe[0])
+        order = case[3] if len(case) > 3 else []
+        return True, [(dvs, cv, recipe)], [(0, i) for i in order]
+
     def run_impl(self, case):
-        dv, cv, recipe = case
+        single, parts, reqs = self._norm(case)
         gc_was = gc.isenabled()
         gc.disable()
         try:
-            dc, ds, keep = build_dc(recipe, cv)
+            built = [build_dc(recipe, cv) for (dvs, cv, recipe) in parts]
+            force_obj = {}
+            for (dvs, cv, recipe), (dc, ds, keep) in zip(parts, built):
+                force_obj[id(dc)] = cv
+                for d, v in zip(ds, dvs):
+                    force_obj[id(d)] = v
+            main = built[0][0] if single else [b[0] for b in built]
+            gs = VersionedSerializer(main, {}, force_obj, include_data=True)
             try:
-                txt = VersionedSerializer(dc, {Data: dv, DataCollection: cv}, include_data=True).dumps()
+                txt = gs.dumps()
             except S.GlueSerializeError:
                 return "save-error"
             rec = json.loads(txt)
             # the records really are of the requested versions
-            for k, v in rec.items():
-                t = v.get('_type')
-                if t == 'glue.core.data.Data' and v.get('_protocol', 1) != dv:
-                    return ["wrong-protocol", "data", v.get('_protocol', 1)]
-                if t == 'glue.core.data_collection.DataCollection' and v.get('_protocol', 1) != cv:
-                    return ["wrong-protocol", "dc", v.get('_protocol', 1)]
-            dc2 = GlueUnSerializer.loads(txt).object('__main__')
-            out = observe_dc(dc2, ds, care_uuid=(dv >= 4))
-            del keep
-            return out
+            for (dvs, cv, recipe), (dc, ds, keep) in zip(parts, built):
+                got = rec[gs.id(dc)].get('_protocol', 1)
+                if got != cv:
+                    return ["wrong-protocol", "dc", got]
+                for d, v in zip(ds, dvs):
+                    got = rec[gs.id(d)].get('_protocol', 1)
+                    if got != v:
+                        return ["wrong-protocol", "data", got]
+            us = GlueUnSerializer.loads(txt)
+            for q in reqs:
+                us.object(gs.id(built[q[0]][0] if len(q) == 1 else built[q[0]][1][q[1]]))
+            loaded = us.object('__main__')
+            if single:
+                loaded = [loaded]
+            out = [observe_dc(dc2, b[1], [v >= 4 for v in p[0]]) for dc2, b, p in zip(loaded, built, parts)]
+            del built
+            return out[0] if single else out
         finally:
             if gc_was:
                 gc.enable()
@@ -601,35 +958,47 @@ class RoundTrip(Family):
         return sx(["rt", case, pyout])
 
     def nontrivial(self, case, po):
-        return isinstance(po, list) and (case[0] < 5 or case[1] < 4)
+        single, parts, reqs = self._norm(case)
+        return isinstance(po, list) and any(cv < 4 or any(v < 5 for v in dvs) for dvs, cv, _ in parts)
 
     def signature(self, case, po, res):
-        dv, cv, r = case
-        return {"dv": dv, "cv": cv}
+        single, parts, reqs = self._norm(case)
+        if not single:
+            return {"doc": len(parts)}
+        dvs, cv, _ = parts[0]
+        return {"dv": dvs[0] if len(set(dvs)) == 1 else "mixed", "cv": cv}
 
     def shrink(self, case):
-        dv, cv, (datas, sels, links, joins, sgc) = case
-        for i in range(len(sels)):
-            yield [dv, cv, [datas, sels[:i] + sels[i + 1:], links, joins, sgc]]
-        if links:
-            yield [dv, cv, [datas, sels, [], joins, sgc]]
-        if joins:
-            yield [dv, cv, [datas, sels, links, [], sgc]]
-        if sgc:
-            yield [dv, cv, [datas, sels, links, joins, 0]]
-        for k, d in enumerate(datas):
-            if d[2]:
-                yield [dv, cv, [datas[:k] + [[d[0], d[1], [], d[3], d[4], d[5]]] + datas[k + 1:], sels, links, joins, sgc]]
-            if d[4]:
-                yield [dv, cv, [datas[:k] + [[d[0], d[1], d[2], d[3], [], d[5]]] + datas[k + 1:], sels, links, joins, sgc]]
-            if d[5] != 'none':
-                yield [dv, cv, [datas[:k] + [[d[0], d[1], d[2], d[3], d[4], 'none']] + datas[k + 1:], sels, links, joins, sgc]]
-        # drop the last dataset when nothing refers to it
-        if len(datas) > 1:
-            k = len(datas) - 1
-            if not any(s_[1] == k for s_ in sels) and not any(k in (l[0], l[2]) for l in links) and not any(k in (j[0], j[2]) for j in joins):
-                yield [dv, cv, [datas[:k], sels, links, joins, sgc]]
-
+        if case[0] == "doc":
+            ps, order = case[1], case[2]
+            for p in ps:                                   # one collection alone
+                yield [p[0], p[1], p[2], []]
+            if order:
+                yield ["doc", ps, []]
+                for i in range(len(order)):
+                    yield ["doc", ps, order[:i] + order[i + 1:]]
+            for k, p in enumerate(ps):
+                for r in _shrink_recipe(p[2]):
+                    if len(r[0]) == len(p[2][0]) and all(len(q) == 1 or q[0] != k or q[1] < len(r[0]) for q in order):
+                        yield ["doc", ps[:k] + [[p[0], p[1], r]] + ps[k + 1:], order]
+            return
+        dv, cv, recipe = case[0], case[1], case[2]
+        order = case[3] if len(case) > 3 else []
+        if order:
+            yield [dv, cv, recipe, []]
+            for i in range(len(order)):
+                yield [dv, cv, recipe, order[:i] + order[i + 1:]]
+        if isinstance(dv, list):
+            for v in sorted(set(dv)):                      # one version for all
+                yield [v, cv, recipe] + ([order] if order else [])
+        for r in _shrink_recipe(recipe):
+            nd = len(r[0])
+            dv2 = dv[:nd] if isinstance(dv, list) else dv
+            if order:
+                if all(i < nd for i in order):
+                    yield [dv2, cv, r, order]
+            else:
+                yield [dv2, cv, r]
 
 
 # ------------------------------------------------------------------------------------------
@@ -893,7 +1262,8 @@ PROP = Property(
         "C12.patch_keys_unique", "C12.patch_targets_importable", "C12.no_capture_partial",
         "C12.no_capture_witness_F12", "C12.registry_consecutive", "C12.saver_loader_versions_match",
         "C12.save_uses_newest_table", "C12.registry_keys_unique",
-        "C12.load_v_save_v_data", "C12.load_v_save_v", "C12.newest_is_lossless",
+        "C12.load_v_save_v_data", "C12.load_v_save_v", "C12.unser_recordwise", "C12.load_doc_mixed",
+        "C12.newest_is_lossless",
     ],
     families=[Tables(), Dispatch(), SaveNewest(), Patch(), VDict(), RoundTrip(), RoundTripOther()],
     pre_build=pre_build,
@@ -901,7 +1271,9 @@ PROP = Property(
     trusted_base=[
         "harness/translate/c12.py reads the registries, PATH_PATCHES and the class table off the imported package and interns names (interning and the inside-'glue.' flags are re-checked by the compiled driver on every run, the live tables of the harness process are compared with the generated ones)",
         "json, base64, np.save/np.load are trusted codecs",
+        "harness/props/c12_linkfns.py: importable user link functions and a BaseMultiLink sub-class used by the generated collections",
     ],
-    assumptions=["old-format records are produced by this tree's own version-v savers (dispatch.get_version(type, v)), as the property prescribes"],
-    rule="VersionedDict: every op sequence of length <= 3 (quick) / 4 (thorough) over 2 keys x versions {(-1),0,1,2,3,bad} + queries, each followed by a full probe of the state, plus seeded random histories of length 4-16 over 3 keys; tables/dispatch/patch: every row of the live registries and every name of the rename table; rt: generated collections (1-3 datasets, derived components, selections, styles, meta, one link or key join) x (Data version, DataCollection version) pairs, saved with those versions' savers and loaded back; rt1: 18 other registered types x registered versions; non-trivial = at least one set / a multi-version type / a table key / an old (non-newest) version pair",
+    assumptions=["old-format records are produced by this tree's own version-v savers (dispatch.get_version(type, v)), as the property prescribes",
+                 "generated links give every component at most one producing link (forward or inverse), so that what a dataset reads through the link web does not depend on the discovery order of the link manager"],
+    rule="VersionedDict: every op sequence of length <= 3 (quick) / 4 (thorough) over 2 keys x versions {(-1),0,1,2,3,bad} + queries, each followed by a full probe of the state, plus seeded random histories of length 4-16 over 3 keys; tables/dispatch/patch: every row of the live registries and every name of the rename table; rt: documents written record by record with independently chosen registered versions and loaded by one GlueUnSerializer: (1) 4 fixed collections + 5 link-zoo collections x all 20 (Data version, DataCollection version) pairs, (2) two Data records x every pair of Data versions x every collection version x 3 request orders, two collection records x every pair of collection versions x 3 request orders, (3) generated collections (1-3 datasets, arithmetic / user-function derived components, selections, styles, meta, up to 4 links of the zoo [single-input, inverse, multi-input foreign, multi-input mixed own/foreign, LinkSame, LinkTwoWay, PairLink, MultiLink, LinkAligned, coordinate components as inputs], key join) x version pairs + random per-dataset version assignments with random request orders + two-collection documents; rt1: 18 other registered types x registered versions; non-trivial = at least one set / a multi-version type / a table key / some record of an old (non-newest) version",
 )
